@@ -1,6 +1,12 @@
-(* REGENERATED on every run by tools/props/c27.py (regen) from the unique_key[...] assignments and the
-   get_unique_type(..., N) calls of new_primitive_type, new_pointer_type, new_array_type, new_void_type and
-   new_function_type in src/c/_cffi_backend.c; the committed copy is Gen.v.snapshot.  Do not edit. *)
+(* REGENERATED on every run by tools/props/c27.py (regen) from src/c/_cffi_backend.c; the committed copy is
+   Gen.v.snapshot.  Do not edit.
+   *_key: the unique_key[...] assignments (WHICH expression is stored in each slot) and the key length given to
+     get_unique_type in new_primitive_type, new_pointer_type, new_array_type, new_void_type, new_function_type;
+   gen_remove_only_if_dead: remove_dead_unique_reference deletes the entry only under the dead-weakref test;
+   gen_dealloc_order: the relevant statements of ctypedescr_dealloc in source order;
+   gen_insert_after_live_check: get_or_insert_unique_type returns a live hit before PyDict_SetItem and sets
+     ct_unique_key only after the insertion;
+   gen_clear_fields: the fields ctypedescr_clear resets. *)
 From Coq Require Import List.
 Import ListNotations.
 From Cffi Require Import C27.Keys.
@@ -10,3 +16,7 @@ Definition pointer_key : list ksrc := [ KItem ].
 Definition array_key : list ksrc := [ KPtr; KLen ].
 Definition void_key : list ksrc := [ KStatic ].
 Definition function_key : list ksrc := [ KResult; KFlags; KNargs; KArgsStored ].
+Definition gen_remove_only_if_dead : bool := true.
+Definition gen_dealloc_order : list dstep := [ DClearWeakrefs; DRemoveKey; DDecrefItem; DDecrefStuff; DFree ].
+Definition gen_insert_after_live_check : bool := true.
+Definition gen_clear_fields : list cfield := [ FItem; FStuff ].
